@@ -107,6 +107,20 @@ CHECKS.update({
         ref="6/C18, 12"),
 })
 
+
+CHECKS.update({
+    "C06": dict(
+        technique="Coq proof (reference client readers applied to each protocol's rendering give the same view of every entry list; MIME adjustment equivalence; query round trips from C05) + byte-for-byte correspondence of all six renderers + cross-protocol oracle on crawled sites",
+        text="Theorems for all entry lists: for each of Gopher, Gopher+, HTTP, WAP, Gemini, Spartan the reference client reader (Gopher line parser, gemtext reader, an HTML/WML tokenizer with row/item readers) applied to the rendered directory equals `view` of the entries, hence any two protocols show the same links in the same order with the same names (after the documented backslashreplace normalisation for names that are not UTF-8) and equivalent targets, info lines equal unless abstract_entries=unsupported separates protocols that carry abstracts natively; adjustmimetype variants differ only on None and the menu type. All renderers are compared byte for byte with the real ones on generated entries; on crawled trees every directory's view, every document's MIME type and body, trailing-slash variants and search strings through a PYG and a CGI echo handler are compared across all 9 protocol variants.",
+        note="Trusts: Coq kernel; entry well-formedness (`entry_wf`, evaluated in Coq on real entries) excludes the divergences listed in DESIGN 12.7; resolution of a selector to the same object is by the shared getHandler (C01 chain model) and searched end to end.",
+        ref="6/C06, 12"),
+    "C13": dict(
+        technique="Coq proof (escape output is inert for a tokenizer model; every page builder has a data-independent element/attribute skeleton; header lines carry no slot; Gopher+ body lines are never headers) + correspondence of page builders and of the tokenizer vs html.parser + hostile-vs-inert skeleton oracle",
+        text="Theorems for all slot values (names, selectors, hosts, URLs, messages, titles): html.escape output contains no < > quote and every & starts an entity; such text keeps the tokenizer in character data or inside a double-quoted attribute value; therefore for each builder (HTTP row, directory start/end, 404, WAP row, deck, 404, text-to-WML, URL redirect page) the skeleton of the page is the same for any two data values; HTTP header lines are constants or table values; every line of a Gopher+ block body starts with a space and contains no line separator. The pinned unescaped HREF is refuted. Builders are compared byte for byte with the real ones; the tokenizer model agrees with html.parser on 558 real and mutated pages; an oracle places a payload grammar in every echo position and compares skeletons, header blocks and Gopher+ block headers with an identically shaped inert site.",
+        note="Trusts: Coq kernel; browsers' tokenisation is represented by the model tokenizer cross-checked against Python's html.parser; WML `$` variable syntax is out of the property's letter.",
+        ref="6/C13, 12"),
+})
+
 NOT_YET = {}
 
 
